@@ -1,5 +1,5 @@
 (* Properties/C15.v — rejected builder calls have no effect; no dangling ids (C15) *)
-From HpoV Require Import Gen.Consts Model.Base Model.Group Model.Onto Model.Dump Model.Script Run.World Run.Ser Run.C15 Proofs.C15P Proofs.ScriptP Proofs.ClosureP Model.Dump Proofs.WalkP Proofs.WalkAllP Proofs.AllPathsP Proofs.DistP Proofs.RoundTripP Proofs.AnnotP Proofs.JaxP Proofs.DecodeAnyP Model.Binary Model.Text Model.SubOnt.
+From HpoV Require Import Gen.Consts Model.Base Model.Group Model.Onto Model.Dump Model.Script Run.World Run.Ser Run.C15 Proofs.C15P Proofs.ScriptP Proofs.ClosureP Model.Dump Proofs.WalkP Proofs.WalkAllP Proofs.AllPathsP Proofs.AcyclicP Proofs.GroupP Proofs.RecordsP Proofs.TotalReloadP Proofs.DistP Proofs.RoundTripP Proofs.AnnotP Proofs.JaxP Proofs.DecodeAnyP Model.Binary Model.Text Model.SubOnt.
 
 Theorem C15_referentially_closed : forall d, ref_closed d = true ->
   (forall t, In t (do_terms d) ->
@@ -74,6 +74,18 @@ Proof. exact decoded_walk_returns. Qed.
 Theorem C15_every_constructed_ontology_walk_returns : forall icf o, constructed icf o -> exists d, dump_onto o = Ok d.
 Proof. exact constructed_walk_returns. Qed.
 
+(* annotate_gene / annotate_omim_disease / annotate_orpha_disease are rejected ONLY for an absent term: on
+   a stored term of an acyclic ontology with exact caches the call returns Ok (the propagation has
+   enough fuel, the record is found); on an absent term it returns Err(DoesNotExist) and nothing else *)
+Theorem C15_annotate_on_stored_term_succeeds : forall k id name tid o, qgood o -> acyclic (o_arena o) ->
+  (forall t, In t (ar_terms (o_arena o)) -> sorted (t_annots k t)) -> In tid (ar_keys (o_arena o)) ->
+  exists o', b_annotate k id name tid o = Ok o'.
+Proof. exact annotate_total. Qed.
+
+Theorem C15_annotate_on_absent_term_is_rejected : forall k id name tid o, o_get tid o = None ->
+  b_annotate k id name tid o = Err DoesNotExist.
+Proof. exact annotate_absent_term. Qed.
+
 Print Assumptions C15_referentially_closed.
 Print Assumptions C15_same_observation.
 Print Assumptions C15_model_failed_add_parent_no_trace.
@@ -85,3 +97,5 @@ Print Assumptions C15_jax_ontologies_walk_returns.
 Print Assumptions C15_sub_ontologies_walk_returns.
 Print Assumptions C15_binary_ontologies_walk_returns.
 Print Assumptions C15_every_constructed_ontology_walk_returns.
+Print Assumptions C15_annotate_on_stored_term_succeeds.
+Print Assumptions C15_annotate_on_absent_term_is_rejected.
